@@ -359,6 +359,17 @@ class Interp:
         The path forks: one alternative executes one arbitrary iteration from the
         invariant and must re-establish it (then ends); the other continues after the loop."""
         ctx = self.ctx
+        # a loop variable named in the sidecar invariant may have been renamed in the code: if exactly as many other
+        # variables are written by the loop body as names are missing, they are matched in order of first assignment
+        # (the invariant then reads / havocs the renamed variables under the contract's names)
+        alias = _rename_aliases(s, env, spec["modifies"])
+        if alias:
+            ctx.dropped.add("loop variables matched to the invariant's names by position: " + ", ".join(f"{k}->{v}" for k, v in sorted(alias.items())))
+            real_env, env = env, _EnvView(env, alias)
+            try:
+                return self.loop_by_invariant(s, env, dict(spec, modifies=list(spec["modifies"])), kind, iterable)
+            finally:
+                pass
         inv = spec["inv"]
         if kind == "for":
             seq = iterable
@@ -1315,6 +1326,73 @@ def _retag(a: Arr, kind):
 
 def _is_seq(x):
     return isinstance(x, (tuple, list)) or (isinstance(x, Arr) and x.kind in ("tuple", "list"))
+
+
+class _EnvView(dict):
+    """The local environment seen under the names a sidecar invariant uses (alias -> actual name)."""
+
+    def __init__(self, real, alias):
+        super().__init__()
+        self._real, self._alias = real, alias
+
+    def _k(self, k):
+        return self._alias.get(k, k)
+
+    def __getitem__(self, k):
+        return self._real[self._k(k)]
+
+    def __setitem__(self, k, v):
+        self._real[self._k(k)] = v
+
+    def __contains__(self, k):
+        return self._k(k) in self._real
+
+    def get(self, k, d=None):
+        return self._real.get(self._k(k), d)
+
+    def setdefault(self, k, d=None):
+        return self._real.setdefault(self._k(k), d)
+
+    def pop(self, k, *d):
+        return self._real.pop(self._k(k), *d)
+
+    def keys(self):
+        return self._real.keys()
+
+    def items(self):
+        return self._real.items()
+
+    def __iter__(self):
+        return iter(self._real)
+
+    def __len__(self):
+        return len(self._real)
+
+
+def _rename_aliases(s, env, names):
+    if isinstance(env, _EnvView):
+        return {}
+    missing = [nm for nm in names if nm not in env]
+    if not missing:
+        return {}
+    loopvars = {n.id for n in ast.walk(s.target) if isinstance(n, ast.Name)} if isinstance(s, ast.For) else set()
+    seen = []
+    for st in s.body:
+        for n in ast.walk(st):
+            tgt = None
+            if isinstance(n, ast.Assign):
+                tgt = n.targets
+            elif isinstance(n, (ast.AugAssign, ast.AnnAssign)):
+                tgt = [n.target]
+            for t in tgt or []:
+                base = t
+                while isinstance(base, ast.Subscript):
+                    base = base.value
+                if isinstance(base, ast.Name) and base.id in env and base.id not in loopvars and base.id not in names and base.id not in seen:
+                    seen.append(base.id)
+    if len(seen) == len(missing):
+        return dict(zip(missing, seen))
+    return {}
 
 
 def seq_len(x):
